@@ -242,119 +242,178 @@ type (
 )
 
 func (p schemaValidatorsPool) BorrowValidator() *SchemaValidator {
+	if verifEnabled {
+		return verifBorrowed(p.Get().(*SchemaValidator))
+	}
 	return p.Get().(*SchemaValidator)
 }
 
 func (p schemaValidatorsPool) RedeemValidator(s *SchemaValidator) {
 	// NOTE: s might be nil. In that case, Put is a noop.
+	verifRedeemed(s)
 	p.Put(s)
 }
 
 func (p objectValidatorsPool) BorrowValidator() *objectValidator {
+	if verifEnabled {
+		return verifBorrowed(p.Get().(*objectValidator))
+	}
 	return p.Get().(*objectValidator)
 }
 
 func (p objectValidatorsPool) RedeemValidator(s *objectValidator) {
+	verifRedeemed(s)
 	p.Put(s)
 }
 
 func (p sliceValidatorsPool) BorrowValidator() *schemaSliceValidator {
+	if verifEnabled {
+		return verifBorrowed(p.Get().(*schemaSliceValidator))
+	}
 	return p.Get().(*schemaSliceValidator)
 }
 
 func (p sliceValidatorsPool) RedeemValidator(s *schemaSliceValidator) {
+	verifRedeemed(s)
 	p.Put(s)
 }
 
 func (p itemsValidatorsPool) BorrowValidator() *itemsValidator {
+	if verifEnabled {
+		return verifBorrowed(p.Get().(*itemsValidator))
+	}
 	return p.Get().(*itemsValidator)
 }
 
 func (p itemsValidatorsPool) RedeemValidator(s *itemsValidator) {
+	verifRedeemed(s)
 	p.Put(s)
 }
 
 func (p basicCommonValidatorsPool) BorrowValidator() *basicCommonValidator {
+	if verifEnabled {
+		return verifBorrowed(p.Get().(*basicCommonValidator))
+	}
 	return p.Get().(*basicCommonValidator)
 }
 
 func (p basicCommonValidatorsPool) RedeemValidator(s *basicCommonValidator) {
+	verifRedeemed(s)
 	p.Put(s)
 }
 
 func (p headerValidatorsPool) BorrowValidator() *HeaderValidator {
+	if verifEnabled {
+		return verifBorrowed(p.Get().(*HeaderValidator))
+	}
 	return p.Get().(*HeaderValidator)
 }
 
 func (p headerValidatorsPool) RedeemValidator(s *HeaderValidator) {
+	verifRedeemed(s)
 	p.Put(s)
 }
 
 func (p paramValidatorsPool) BorrowValidator() *ParamValidator {
+	if verifEnabled {
+		return verifBorrowed(p.Get().(*ParamValidator))
+	}
 	return p.Get().(*ParamValidator)
 }
 
 func (p paramValidatorsPool) RedeemValidator(s *ParamValidator) {
+	verifRedeemed(s)
 	p.Put(s)
 }
 
 func (p basicSliceValidatorsPool) BorrowValidator() *basicSliceValidator {
+	if verifEnabled {
+		return verifBorrowed(p.Get().(*basicSliceValidator))
+	}
 	return p.Get().(*basicSliceValidator)
 }
 
 func (p basicSliceValidatorsPool) RedeemValidator(s *basicSliceValidator) {
+	verifRedeemed(s)
 	p.Put(s)
 }
 
 func (p numberValidatorsPool) BorrowValidator() *numberValidator {
+	if verifEnabled {
+		return verifBorrowed(p.Get().(*numberValidator))
+	}
 	return p.Get().(*numberValidator)
 }
 
 func (p numberValidatorsPool) RedeemValidator(s *numberValidator) {
+	verifRedeemed(s)
 	p.Put(s)
 }
 
 func (p stringValidatorsPool) BorrowValidator() *stringValidator {
+	if verifEnabled {
+		return verifBorrowed(p.Get().(*stringValidator))
+	}
 	return p.Get().(*stringValidator)
 }
 
 func (p stringValidatorsPool) RedeemValidator(s *stringValidator) {
+	verifRedeemed(s)
 	p.Put(s)
 }
 
 func (p schemaPropsValidatorsPool) BorrowValidator() *schemaPropsValidator {
+	if verifEnabled {
+		return verifBorrowed(p.Get().(*schemaPropsValidator))
+	}
 	return p.Get().(*schemaPropsValidator)
 }
 
 func (p schemaPropsValidatorsPool) RedeemValidator(s *schemaPropsValidator) {
+	verifRedeemed(s)
 	p.Put(s)
 }
 
 func (p formatValidatorsPool) BorrowValidator() *formatValidator {
+	if verifEnabled {
+		return verifBorrowed(p.Get().(*formatValidator))
+	}
 	return p.Get().(*formatValidator)
 }
 
 func (p formatValidatorsPool) RedeemValidator(s *formatValidator) {
+	verifRedeemed(s)
 	p.Put(s)
 }
 
 func (p typeValidatorsPool) BorrowValidator() *typeValidator {
+	if verifEnabled {
+		return verifBorrowed(p.Get().(*typeValidator))
+	}
 	return p.Get().(*typeValidator)
 }
 
 func (p typeValidatorsPool) RedeemValidator(s *typeValidator) {
+	verifRedeemed(s)
 	p.Put(s)
 }
 
 func (p schemasPool) BorrowSchema() *spec.Schema {
+	if verifEnabled {
+		return verifBorrowed(p.Get().(*spec.Schema))
+	}
 	return p.Get().(*spec.Schema)
 }
 
 func (p schemasPool) RedeemSchema(s *spec.Schema) {
+	verifRedeemed(s)
 	p.Put(s)
 }
 
 func (p resultsPool) BorrowResult() *Result {
+	if verifEnabled {
+		return verifBorrowed(p.Get().(*Result).cleared())
+	}
 	return p.Get().(*Result).cleared()
 }
 
@@ -362,5 +421,6 @@ func (p resultsPool) RedeemResult(s *Result) {
 	if s == emptyResult {
 		return
 	}
+	verifRedeemed(s)
 	p.Put(s)
 }
